@@ -16,7 +16,7 @@ SLACK_US = 2 * SEC  # judged one-shots must be due at least this long before the
 
 META = {
     "kind": "graph",
-    "engine": "E1: real run_scheduler_loop() on a hand-stepped loop whose virtual clock is also the wall clock (run.datetime patched)",
+    "engine": "E1: real run_scheduler_loop() (also entered through run_scheduler_task and the CLI's run_scheduler) on a hand-stepped loop whose virtual clock is also the wall clock (run.datetime patched)",
     "rule": (
         "start instant in {:00.0, :00.5, :29.3, :59.0, :59.5, :59.999}; horizon 3 (quick) / 5 (thorough) virtual minutes; "
         "1-3 sources (scripted list sources that drop a fired one-shot in post_send, and the real LabelScheduleSource); "
@@ -253,6 +253,11 @@ def scenarios(tier: str) -> List[Dict[str, Any]]:
             for lat in (0, 400_000):
                 out.append({"start_us": start, "horizon_min": hz, "latency_us": lat, "level": 0,
                             "sources": [{"kind": "label", "schedules": list(st)}, {"kind": "list", "schedules": [alpha[1]]}]})
+        # the same loop entered through the programmatic API and through the CLI entry point
+        for entry in ("api", "cli"):
+            for st in [(alpha[0], alpha[4]), (alpha[1], alpha[9], alpha[3])]:
+                out.append({"start_us": start, "horizon_min": hz, "latency_us": 400_000, "level": 0, "entry": entry,
+                            "sources": [{"kind": "list", "schedules": list(st)}]})
         # slow sources: listing takes time (different per source); listings that would straddle a minute
         # boundary are outside the property's quantifier and are not generated
         for lats in [(300_000, 0), (0, 200_000), (250_000, 400_000)]:
